@@ -1022,7 +1022,7 @@ def run(ctx):
         for acc, _ in pmap(w_off_misc, [off_alphabet()]):
             ctx.merge_part("offset", acc)
         if not thorough:
-            ctx.cap("offset: from_milliseconds/ticks/nanoseconds boundary triples at every 7th second (all seconds in the thorough tier)")
+            ctx.cap("offset: from_milliseconds/ticks/nanoseconds/timedelta boundary arguments at every 7th second (all seconds in the thorough tier)")
     ctx.note("duration_alphabet", len(V))
     ctx.note("distinct_duration_values_seen", len(seen))
     ctx.rule = ("non-trivial = an operation whose exact result crosses a day boundary (carry/borrow between the day and "
